@@ -34,6 +34,12 @@ var c07TameDates = []string{"3 Sep 1943", "3 SEP 1943", "5 Sep 1943", "Sep 1943"
 var c07WildDates = []string{"Bef. Oct 1943", "Aft. 1940", "Bef. 1900", "Bef. 1901", "Aft. 3 Sep 1943",
 	"Bef. 5 Sep 1943", "Abt. Sep 1943", "bef 1950", "After 1 Jan 1900", "Bet. Bef. 1940 and 1950"}
 
+// zero-year / half-zero dates (parse without error but are zero dates), years above 9999, a month
+// without a usable year, leading-zero days, runs of five and more spaces
+var c07EdgeDates = []string{"0", "0000", "Abt. 0", "BET 0 AND 0", "BET 1900 AND 0", "Bet. 0 and 1900", "Bef. 0",
+	"Mar 0", "3 Mar 0", "12345", "Mar 12345", "3 Sep 12345", "03 Sep 1943", "003 Sep 1943", "00 Sep 1943",
+	"3     Sep 1943", "3      Sep   1943", "1 Jan 0001", "Aft. 0000", "0 Sep 1943"}
+
 var c07UIDs = []string{
 	"EE13561DDB204985BFFDEEBF82A5226C", "ee13561ddb204985bffdeebf82a5226c",
 	"ee13561d-db20-4985-bffd-eebf82a5226c", "{EE13561D-DB20-4985-BFFD-EEBF82A5226C}",
@@ -51,6 +57,9 @@ type c07gen struct {
 
 func (g *c07gen) date() *TNode {
 	pool := c07TameDates
+	if g.r.Chance(1, 5) {
+		pool = c07EdgeDates
+	}
 	if g.wild && g.r.Chance(1, 2) {
 		pool = c07WildDates
 	}
@@ -59,6 +68,14 @@ func (g *c07gen) date() *TNode {
 		t.Kids = append(t.Kids, T("TIME", g.r.Pick([]string{"12:00", "13:00"}), ""))
 	}
 	return t
+}
+
+// c07docDate: a DATE value for a generated document line (the decoder trims it)
+func c07docDate(r *Rand) string {
+	if r.Chance(1, 3) {
+		return r.Pick(c07EdgeDates)
+	}
+	return r.Pick(c07TameDates[:6])
 }
 
 func (g *c07gen) plainLeaf() *TNode {
@@ -548,7 +565,7 @@ func c07document(r *Rand) string {
 	for i := 1; i <= ni; i++ {
 		fmt.Fprintf(&sb, "0 @I%d@ INDI\n1 NAME %s /%s/\n", i, r.Pick([]string{"Ann", "Bob", "Cy"}), r.Pick([]string{"Smith", "Jones"}))
 		if r.Bool() {
-			fmt.Fprintf(&sb, "1 BIRT\n2 DATE %s\n", r.Pick(c07TameDates[:6]))
+			fmt.Fprintf(&sb, "1 BIRT\n2 DATE %s\n", c07docDate(r))
 		}
 		if r.Chance(1, 3) {
 			fmt.Fprintf(&sb, "1 _UID %s\n", r.Pick(c07UIDs[:9]))
@@ -573,7 +590,7 @@ func c07document(r *Rand) string {
 			}
 		}
 		if r.Bool() {
-			fmt.Fprintf(&sb, "1 MARR\n2 DATE %s\n", r.Pick(c07TameDates[:6]))
+			fmt.Fprintf(&sb, "1 MARR\n2 DATE %s\n", c07docDate(r))
 		}
 	}
 	if r.Chance(1, 2) {
@@ -594,6 +611,10 @@ func init() {
 		w2 := T("BIRT", "", "", T("DATE", "Bef. Oct 1943", ""), T("DATE", "5 Sep 1943", ""), T("DATE", "3 Sep 1943", ""))
 		c07laws(c, w1, w2, "permutation", "eq")
 		c07laws(c, T("DATE", "Bef. 1900", ""), T("DATE", "Bef. 1901", ""), "pair", "")
+		for _, z := range []string{"0", "Abt. 0", "BET 1900 AND 0"} { // dates that parse without error but are zero dates
+			zt := T("BIRT", "", "", T("DATE", z, ""))
+			c07laws(c, zt, zt.Clone(), "copy", "eq")
+		}
 		uid := T("INDI0", "", "", T("_UID", "notauuid", ""))
 		c07laws(c, uid, uid.Clone(), "copy", "eq")
 
@@ -657,7 +678,8 @@ func init() {
 
 		// 1b. sibling groups aimed at the two findings: related constrained dates under one parent,
 		// and RESI / EVEN siblings with one or two dates from a two-value pool
-		related := []string{"3 Sep 1943", "Bef. Oct 1943", "5 Sep 1943", "Sep 1943", "Aft. 1 Sep 1943", "Abt. 3 Sep 1943", "1943"}
+		related := []string{"3 Sep 1943", "Bef. Oct 1943", "5 Sep 1943", "Sep 1943", "Aft. 1 Sep 1943", "Abt. 3 Sep 1943", "1943",
+			"0", "Abt. 0", "BET 1900 AND 0", "03 Sep 1943", "3     Sep 1943"}
 		ng := c.N(300, 6000)
 		for i := 0; i < ng; i++ {
 			var parent *TNode
@@ -672,7 +694,7 @@ func init() {
 				for k := 2 + r.Intn(3); k > 0; k-- {
 					x := T(tag, "", "")
 					for d := 1 + r.Intn(2); d > 0; d-- {
-						x.Kids = append(x.Kids, T("DATE", r.Pick([]string{"1 Jan 1900", "1943"}), ""))
+						x.Kids = append(x.Kids, T("DATE", r.Pick([]string{"1 Jan 1900", "1943", "1943", "0", "BET 0 AND 0", "Mar 0"}), ""))
 					}
 					if r.Bool() {
 						x.Kids = append(x.Kids, T("PLAC", r.Pick([]string{"England", "Wales"}), ""))
@@ -755,7 +777,7 @@ func init() {
 		// 4. nil nodes
 		c07nilCases(c)
 		c.Notes = append(c.Notes,
-			"DATE values: "+fmt.Sprint(len(c07TameDates))+" on which DateRange.Equals is an equivalence, "+fmt.Sprint(len(c07WildDates))+" constraint-bearing (every 4th tree)",
+			"DATE values: "+fmt.Sprint(len(c07EdgeDates))+" edge values (zero / half-zero dates, year > 9999, leading zeros, long space runs) in every stream, "+fmt.Sprint(len(c07TameDates))+" on which DateRange.Equals is an equivalence, "+fmt.Sprint(len(c07WildDates))+" constraint-bearing (every 4th tree)",
 			"not covered: NodesWithTag cache staleness after DeleteNode/SetNodes (C13); role nodes whose family is not a record of the document")
 	}
 }
